@@ -13,6 +13,7 @@ for m in r['mismatches'][:n]:
 print('oracle failures',len(r['oracle_failures']), 'known', r.get('known_hits'))
 seen={}
 for f in r['oracle_failures']:
+    if f.get('known'): continue
     seen.setdefault(f['what'][:70],[]).append(f)
 for w,fs in seen.items():
     f=fs[0]
